@@ -326,7 +326,7 @@ func checkMerge(e *Env, m *e1Model) {
 
 func init() {
 	Specs["C04"] = &Spec{
-		Level: "proof",
+		Level: "other",
 		Explanation: "On the whole-program graph of E1, for both encodings of the architecture jump and for x86_64 / other architectures: the first instruction loads the architecture word and the next compares it with the " +
 			"policy's audit architecture; the mismatch edge lands - position + 1 + skip evaluated over symbolic fragment lengths, then a suffix query on the layout - on the last instruction, which is always the default return " +
 			"and always exists; the match edge reaches the single load of the syscall number; on x86_64 and only there the next two instructions are `jge 0x40000000` (unsigned, skip-false 1) and `ret ERRNO|ENOSYS`, before any " +
